@@ -54,9 +54,10 @@ MANIFEST = dict(
          "from the data contract and of the small families (jumps, storage, MSTORE, account opcodes) + a seeded 1/16 sample of the rest; "
          "thorough: every tuple.",
     note="Published events are counted from the change journal (what a block publishes); the platform's failure event after a failed call is "
-         "modelled as the allowed effect. Two genuine defects are carried as named deviations: a frame that fails after one of its inner calls "
+         "modelled as the allowed effect. Three genuine defects are carried as named deviations: a frame that fails after one of its inner calls "
          "failed and a later one wrote again panics the node (Dev_NestedFailVersionGapPanics); reverting across SELFDESTRUCT loses storage "
-         "written earlier in the block (Dev_RevertAcrossSuicideLosesStorage).",
+         "written earlier in the block (Dev_RevertAcrossSuicideLosesStorage) and the code of a contract created earlier in the block: later "
+         "calls towards it are refused, its code cannot be loaded after the transaction (Dev_RevertAcrossSuicideLosesCode).",
     technique="TLA+ model checking (CallFrames.tla) + TLC behaviours compiled to EVM bytecode and run on the real EVM + TLC trace validation "
               "(TraceCallFrames.tla re-executes the recorded frame events)")
 
@@ -285,7 +286,7 @@ def run(ctx):
             ctx.tlc_exhaustive("MCCallFrames", "MCCallFrames_base.cfg", timeout=900, workers=8)
         ctx.tlc_exhaustive("MCCallFrames", "MCCallFrames_depth.cfg", timeout=300, workers=4)
         for cfg, want in (("MCCallFrames_negS.cfg", "FailedFrameIsNoop"), ("MCCallFrames_negG.cfg", "NoCrash"), ("MCCallFrames_negC.cfg", "FailedFrameIsNoop"),
-                          ("MCCallFrames_negJ.cfg", "JumpIsFrameLocal")):
+                          ("MCCallFrames_negJ.cfg", "JumpIsFrameLocal"), ("MCCallFrames_negL.cfg", "FailedFrameIsNoop")):
             neg = ctx.tlc("MCCallFrames", cfg, timeout=600, workers=4, expect_ok=False)
             ctx.extra.setdefault("negative_controls", {})[cfg] = neg["inv"]
             if neg["inv"] != want:
